@@ -50,6 +50,12 @@ def odd_programs(tier: str) -> List[str]:
         ["int unknown", "txn TypeEnum", "=="],
         ["txn OnCompletion", "int pay", "=="],
         ["txn ApplicationID", "int 18446744073709551615", "=="],
+        # named integer constants where a number is expected, every operator class
+        ["global GroupSize", "int axfer", "<"],
+        ["int pay", "txn GroupIndex", ">="],
+        ["txn Fee", "int appl", "<="],
+        ["global GroupSize", "int NoOp", "!="],
+        ["txn Fee", "int DeleteApplication", ">"],
     ]
     out: List[str] = []
     seen: Set[str] = set()
